@@ -17,7 +17,7 @@ def check(F, rep):
     f = rep.fn(fs[0])
     du = defuse(f)
     sets = find_calls(f, regex=r"PathSelection::set$")
-    rep.floor("selection", "selection.set(..) calls", len(sets), 2)
+    rep.floor("selection", "selection.set(..) calls", len(sets), 1)
     paths = find_calls(f, regex=r"PathSelectionContext::paths$")
     rep.exact("selection", "ctx.paths() calls", len(paths), 1)
     nx = [(b, t) for b, t in find_calls(f, "core::iter::traits::iterator::Iterator::next") if paths and paths[0][1]["dest"]["l"] in du.closure(op_base(t["args"][0]))]
